@@ -599,6 +599,40 @@ def c17_args(ctx, case):
                   % (case["criteria"], P - 1), sig={"kind": kind})
 
 
+# ---- records whose first or last samples are exactly 0.0 (a sine starting at phase 0, a gated record, integer data) ----------
+def enum_zero_ends(tier):
+    rng = np.random.default_rng(1717)
+    base = rng.standard_normal(22)
+    cb = base + 1j * rng.standard_normal(22)
+    recs = {
+        "0,1,0,-1": ([0.0, 1.0, 0.0, -1.0] * 5 + [0.0], None),
+        "2 sin(2 pi n/8)": ([2.0 * math.sin(2 * math.pi * n / 8.0) if n % 4 else 0.0 for n in range(21)], None),
+        "noise, last sample 0": (list(base[:-1]) + [0.0], None),
+        "noise, first sample 0": ([0.0] + list(base[1:]), None),
+        "noise, two zeros at each end": ([0.0, 0.0] + list(base[2:-2]) + [0.0, 0.0], None),
+        "complex noise, last sample 0": (list(cb.real[:-1]) + [0.0], list(cb.imag[:-1]) + [0.0]),
+        "complex noise, first sample 0": ([0.0] + list(cb.real[1:]), [0.0] + list(cb.imag[1:])),
+    }
+    for name, (re, im) in recs.items():
+        x = {"kind": "explicit", "n": len(re), "complex": im is not None, "re": [float(v) for v in re]}
+        if im is not None:
+            x["im"] = [float(v) for v in im]
+        for P in (3, 6):
+            for method in ("music", "ev"):
+                for klass in (False, True):
+                    c = {"x": x, "nsig": 2, "P": P, "nfft": 64, "method": method, "type": name, "complex": im is not None}
+                    if klass:
+                        c["fs"] = 1.0
+                    yield c
+
+
+@sub("C17.zero_ends", enum=enum_zero_ends, exhaustive=True,
+     doc="records that begin or end with samples that are exactly 0.0 (integer data 0,1,0,-1, a sine starting at phase 0, gated "
+         "noise; real and complex): the singular values are those of the forward-backward matrix of the *whole* record")
+def c17_zero_ends(ctx, case):
+    c17_sv(ctx, case)
+
+
 # ---- other spellings of the method name: either refused, or the same estimate ----------------------------------------------
 def enum_method(tier):
     for sp in ("MUSIC", "EV", "Music", "Ev", "mUSIC", "eV", " music", "ev ", "MuSiC"):
